@@ -10,7 +10,7 @@ func init() {
 		name:           "cancelsim",
 		property:       "C29",
 		prepare:        prepareCancel,
-		quickBudget:    50 * time.Second,
+		quickBudget:    60 * time.Second,
 		thoroughBudget: 1500 * time.Second,
 		realVsStub: map[string]string{
 			"parsers/tm, parsers/tm/ast, parsers/js (generated tables + hand-written parser_impl.go), parsers/js/ast, parsers/test": "real code, public entry points",
